@@ -6,7 +6,7 @@ from typing import Dict, List, Optional, Set, Tuple
 
 from fdlstatic import cfg as cfg_lib
 from fdlstatic.ctx import Ctx, kwarg
-from fdlstatic.model import AnalysisError, FuncInfo, unparse, walk_function, walk_stmts
+from fdlstatic.model import AnalysisError, FuncInfo, norm_text, unparse, walk_function, walk_stmts
 from fdlstatic import roles
 from fdlstatic.report import RuleSet
 from fdlstatic.rules import c10, c14
@@ -329,6 +329,128 @@ def run(ctx: Ctx, rs: RuleSet, tier: str):
            'path that the diff still refers to gets no `moved_` alias, and the '
            'emitted fiddler reads it after the statement that removed or '
            'replaced it', ctx.loc(ff, defs[0]))
+
+  # ---- alias names start with the ObjectToName prefix (a valid identifier
+  # start, whatever the path elements look like)
+  rule = 'LIT.alias-name-prefix'
+  rs.declare(rule, 'every suggested alias name is <prefix> + ..., so it '
+             'starts with a letter even when the path ends in an index or a '
+             'digit-leading key', 2)
+
+  def _prefixed(f, e, depth=0):
+    if depth > 5:
+      return False
+    while isinstance(e, ast.BinOp) and isinstance(e.op, ast.Add):
+      e = e.left
+    if isinstance(e, ast.Attribute) and e.attr == 'prefix':
+      return True
+    if isinstance(e, ast.JoinedStr) and e.values and isinstance(
+        e.values[0], ast.FormattedValue):
+      return _prefixed(f, e.values[0].value, depth + 1)
+    if isinstance(e, ast.Name):
+      defs = roles.defs_of(f, e.id)
+      if defs:
+        return all(_prefixed(f, d, depth + 1) for d in defs)
+      # key of a dict whose keys are all prefixed: for k, v in D.items()
+      for L in walk_function(f.node):
+        if isinstance(L, ast.For) and isinstance(
+            L.target, ast.Tuple) and L.target.elts and unparse(
+                L.target.elts[0]) == e.id and isinstance(
+                    L.iter, ast.Call) and isinstance(
+                        L.iter.func, ast.Attribute) and (
+                            L.iter.func.attr == 'items'):
+          D = unparse(L.iter.func.value)
+          keys = []
+          for c in walk_function(f.node):
+            if isinstance(c, ast.Call) and isinstance(
+                c.func, ast.Attribute) and c.func.attr == 'setdefault' and (
+                    unparse(c.func.value) == D) and c.args:
+              keys.append(c.args[0])
+            if isinstance(c, ast.Assign) and isinstance(
+                c.targets[0], ast.Subscript) and unparse(
+                    c.targets[0].value) == D:
+              keys.append(c.targets[0].slice)
+          return bool(keys) and all(_prefixed(f, k, depth + 1) for k in keys)
+    return False
+
+  for q in (f'{CD}.assign_explicit_names', f'{CD}.assign_short_names'):
+    f = ctx.func(q)
+    produced = []
+    for r in walk_function(f.node):
+      if isinstance(r, ast.Return) and isinstance(r.value, ast.ListComp):
+        elt = r.value.elt
+        if isinstance(elt, ast.Subscript):
+          # looked up in a table filled earlier: check what was stored
+          tbl = unparse(elt.value)
+          for st in walk_function(f.node):
+            if isinstance(st, ast.Assign) and isinstance(
+                st.targets[0], ast.Subscript) and unparse(
+                    st.targets[0].value) == tbl:
+              produced.append(st.value)
+        else:
+          produced.append(elt)
+    bad = [e for e in produced if not _prefixed(f, e)]
+    rs.check(bool(produced) and not bad, rule, q,
+             f'{len(produced)} name expression(s), all starting with the '
+             'prefix' if produced and not bad else
+             (f'`{unparse(bad[0])[:60]}` is suggested as a variable name '
+              'without the prefix: for a path ending in `[0][\'attn\']` the '
+              'name is `0_attn`, not an identifier - fiddler_from_diff fails '
+              'in that naming mode' if bad else 'no name expression found'),
+             ctx.loc(f, bad[0] if bad else f.node))
+
+  # ---- optional lookups of configuration values are tested by identity
+  rule = 'NONE.lookup-by-identity'
+  rs.declare(rule, 'a value looked up with .get() (None = absent) is tested '
+             'with `is None` / `is not None`, never by truthiness', 1)
+  n_lookups = 0
+  for f in ctx.mod(CD).all_funcs:
+    if f.is_lambda:
+      continue
+    opt = roles.assigned_from(f, lambda e: isinstance(e, ast.Call) and isinstance(
+        e.func, ast.Attribute) and e.func.attr == 'get' and (
+            len(e.args) == 1 or (len(e.args) == 2 and isinstance(
+                e.args[1], ast.Constant) and e.args[1].value is None)))
+    if not opt:
+      continue
+
+    def truth_uses(test):
+      # names used as a truth value: the whole test, operands of not/and/or
+      out = []
+      stack = [test]
+      while stack:
+        t = stack.pop()
+        if isinstance(t, ast.Name):
+          out.append(t)
+        elif isinstance(t, ast.UnaryOp) and isinstance(t.op, ast.Not):
+          stack.append(t.operand)
+        elif isinstance(t, ast.BoolOp):
+          stack += t.values
+      return out
+
+    for n in walk_function(f.node):
+      test = getattr(n, 'test', None) if isinstance(
+          n, (ast.If, ast.While, ast.IfExp, ast.Assert)) else None
+      if test is None:
+        continue
+      ident = [c for c in ast.walk(test) if isinstance(c, ast.Compare) and
+               isinstance(c.left, ast.Name) and c.left.id in opt and
+               isinstance(c.ops[0], (ast.Is, ast.IsNot))]
+      bad = [u for u in truth_uses(test) if u.id in opt]
+      for c in ident:
+        n_lookups += 1
+        rs.ok(rule, f'{f.qualname}:`{norm_text(f, c)}`',
+              'tested by identity with None', ctx.loc(f, c))
+      for u in bad:
+        n_lookups += 1
+        rs.fail(rule, f'{f.qualname}:truthiness of `{norm_text(f, u)}`',
+                f'`{u.id}` comes from .get() and is tested by truthiness: an '
+                'empty list / dict / tuple found under the path counts as '
+                '"absent", so its alias paths are not recorded and the '
+                'fiddler reads the value after it was replaced',
+                ctx.loc(f, u))
+  if n_lookups == 0:
+    raise AnalysisError('no optional lookup test found in codegen_diff')
 
   # ---- names from the namespace
   rule = 'WMC.generated-names'
